@@ -14,7 +14,8 @@ for d in "$@"; do
   git worktree add -q --detach "$wt" HEAD >>"$log" 2>&1 || { echo "$id: worktree failed"; continue; }
   # where does the demo go?  header: "copy ... to <path>_test.go" or "into <dir>/"
   demo=$d/demo_test.go
-  tgt=$(grep -m1 -oE '(copy|Copy|copied|Copied)[^`]*`?[A-Za-z0-9_/.-]+/' "$demo" | grep -oE '[A-Za-z0-9_.-]+(/[A-Za-z0-9_.-]+)*/$' | tail -1)
+  tgt=$(head -1 "$demo" | sed -nE 's|^// *[Cc]op[a-z]* to `?([A-Za-z0-9_.-]+(/[A-Za-z0-9_.-]+)*)/.*|\1/|p')
+  [ -z "$tgt" ] && tgt=$(grep -m1 -oE '(copy|Copy|copied|Copied)[^`]*`?[A-Za-z0-9_/.-]+/' "$demo" | grep -oE '[A-Za-z0-9_.-]+(/[A-Za-z0-9_.-]+)*/$' | tail -1)
   [ -z "$tgt" ] && tgt=$(grep -m1 -oE '(airgapped|client|fsm|storage|pkg|dkg|cmd)(/[A-Za-z0-9_]+)*/' "$demo" | head -1)
   pkgline=$(grep -m1 '^package ' "$demo" | awk '{print $2}')
   tgt=${tgt%/}
